@@ -23,6 +23,7 @@ UNITS_OF = {
     "C16": ["hash"],
     "C20": ["iter", "fixed_vector"],
     "C05": ["log"], "C10": ["log"], "C09": ["log"],
+    "C04": ["options"], "C11": ["options"], "C14": ["options"], "C03": ["options"],
 }
 
 
@@ -100,35 +101,40 @@ def clause_tags(udir, incdirs, fnames):
         txt = subprocess.run(cmd, stdout=subprocess.PIPE, stderr=subprocess.DEVNULL, text=True, timeout=60).stdout
     except Exception:
         return {}
+    # drop ordinary comments (they may contain quotes and parentheses); keep the /*@ tag */ markers
+    txt = re.sub(r"/\*(?!@).*?\*/", " ", txt, flags=re.S)
     res = {}
     for fn in fnames:
+      try:
         for m in re.finditer(r"\b%s\s*\(" % re.escape(fn), txt):
-            op = m.end() - 1
-            try:
-                cl = match_close(txt, op, "(", ")")
-            except Exception:
-                continue
-            rest = txt[cl + 1:cl + 20000]
-            if not re.match(r"\s*(/\*.*?\*/\s*)*__CPROVER_(requires|assigns|ensures|frees)", rest, re.S):
-                continue
-            n = 0
-            pos = 0
-            while True:
-                mm = re.compile(r"\s*(?:/\*@\s*([\w.\-]+)\s*\*/|/\*.*?\*/)?\s*__CPROVER_(requires|assigns|ensures|frees)\s*\(", re.S).match(rest, pos)
-                if not mm:
-                    break
-                o2 = mm.end() - 1
-                c2 = match_close(rest, o2, "(", ")")
-                kind = mm.group(2)
-                tagm = re.match(r"\s*;?\s*/\*@\s*([\w.\-]+)\s*\*/", rest[c2 + 1:c2 + 200])
-                if kind == "ensures":
-                    n += 1
-                    if tagm:
-                        res[(fn, n)] = tagm.group(1)
-                pos = c2 + 1
-                if tagm:
-                    pos = c2 + 1 + tagm.end()
-            break
+              op = m.end() - 1
+              try:
+                  cl = match_close(txt, op, "(", ")")
+              except Exception:
+                  continue
+              rest = txt[cl + 1:cl + 200000]
+              if not re.match(r"\s*(/\*.*?\*/\s*)*__CPROVER_(requires|assigns|ensures|frees)", rest, re.S):
+                  continue
+              n = 0
+              pos = 0
+              while True:
+                  mm = re.compile(r"\s*(?:/\*@\s*([\w.\-]+)\s*\*/|/\*.*?\*/)?\s*__CPROVER_(requires|assigns|ensures|frees)\s*\(", re.S).match(rest, pos)
+                  if not mm:
+                      break
+                  o2 = mm.end() - 1
+                  c2 = match_close(rest, o2, "(", ")")
+                  kind = mm.group(2)
+                  tagm = re.match(r"\s*;?\s*/\*@\s*([\w.\-]+)\s*\*/", rest[c2 + 1:c2 + 200])
+                  if kind == "ensures":
+                      n += 1
+                      if tagm:
+                          res[(fn, n)] = tagm.group(1)
+                  pos = c2 + 1
+                  if tagm:
+                      pos = c2 + 1 + tagm.end()
+              break
+      except Exception:
+        continue
     return res
 
 
@@ -279,7 +285,7 @@ def run_check(prop, a, bdir, seed, t0):
             jobs.append(j)
             for k in j.kf:
                 # region run: is the listed finding still present?  quick: one representative function per finding
-                if not (a.tier == "thorough" or k.get("functions", [None])[0] == f.name):
+                if prop not in k.get("properties", []) or not (a.tier == "thorough" or k.get("functions", [None])[0] == f.name):
                     continue
                 j2 = driver.Job(uname, f.name + "@" + k["name"], "h_" + f.name, f.name, rep, [gen_c, har_c],
                                 defs + ["NITRO_KF_REGION=1", "NITRO_KF_SEL_%s=1" % k["name"]], rec=f.rec, props=f.props)
